@@ -288,15 +288,13 @@ Proof.
   - apply IH. assumption.
 Qed.
 
-Lemma chunk_for_offset_multi : forall t n x,
-  (2 <= length (t_chunks t))%nat -> tiles 0 (t_chunks t) n -> 0 <= x ->
-  (x < n -> exists r, (r < length (t_chunks t))%nat /\ chunk_for_offset t x = Some (nth r (t_chunks t) d0)
-                      /\ c_off (nth r (t_chunks t) d0) <= x < c_off (nth r (t_chunks t) d0) + c_size (nth r (t_chunks t) d0))
-  /\ (n <= x -> chunk_for_offset t x = None).
+Lemma search_lookup_spec : forall ents n x,
+  tiles 0 ents n -> 0 <= x ->
+  (x < n -> exists r, (r < length ents)%nat /\ search_lookup ents x = Some (nth r ents d0)
+                      /\ c_off (nth r ents d0) <= x < c_off (nth r ents d0) + c_size (nth r ents d0))
+  /\ (n <= x -> search_lookup ents x = None).
 Proof.
-  intros t n x Hlen Ht Hx. unfold chunk_for_offset.
-  set (ents := t_chunks t) in *.
-  destruct (Nat.ltb (length ents) 2) eqn:E2; [apply Nat.ltb_lt in E2; lia|].
+  intros ents n x Ht Hx. unfold search_lookup.
   fold d0. fold (cfo_pred ents x).
   set (len := length ents) in *.
   assert (Hext : search len (cfo_pred ents x) = search len (clip len (cfo_pred ents x))).
@@ -314,6 +312,8 @@ Proof.
   { intros k Hk. unfold clip. replace (Nat.ltb k len) with true by (symmetry; apply Nat.ltb_lt; lia). reflexivity. }
   split.
   - intros Hxn.
+    assert (Hlen0 : (0 < len)%nat).
+    { destruct ents as [|c t]; simpl in *; [lia|unfold len; simpl; lia]. }
     destruct (Nat.eqb r len) eqn:Er.
     + apply Nat.eqb_eq in Er.
       (* every predicate is false, in particular for the last chunk: x >= n *)
@@ -337,6 +337,78 @@ Proof.
     pose proof (Hhi r ltac:(lia)) as Htrue. rewrite Hclip in Htrue by lia.
     unfold cfo_pred in Htrue.
     destruct (tiles_nth _ _ _ r Ht Hrl) as (H0 & Hs & Hn). lia.
+Qed.
+
+Lemma chunk_for_offset_multi : forall t n x,
+  (2 <= length (t_chunks t))%nat -> tiles 0 (t_chunks t) n -> 0 <= x ->
+  (x < n -> exists r, (r < length (t_chunks t))%nat /\ chunk_for_offset t x = Some (nth r (t_chunks t) d0)
+                      /\ c_off (nth r (t_chunks t) d0) <= x < c_off (nth r (t_chunks t) d0) + c_size (nth r (t_chunks t) d0))
+  /\ (n <= x -> chunk_for_offset t x = None).
+Proof.
+  intros t n x Hlen Ht Hx. unfold chunk_for_offset.
+  replace (Nat.ltb (length (t_chunks t)) 2) with false by (symmetry; apply Nat.ltb_ge; lia).
+  apply search_lookup_spec; assumption.
+Qed.
+
+(* the same contract for any list that tiles [0,n), searched directly (db store) *)
+Lemma search_lookup_lookupspec : forall ents n, 0 <= n -> tiles 0 ents n -> LookupSpec (search_lookup ents) n.
+Proof.
+  intros ents n Hn Ht. split.
+  - intros x ch Hx H.
+    destruct (search_lookup_spec ents n x Ht Hx) as (Hin & Hout).
+    destruct (Z_lt_le_dec x n) as [Hl|Hg].
+    + destruct (Hin Hl) as (r & Hr & Heq & Hc). rewrite Heq in H. inversion H; subst.
+      destruct (tiles_nth _ _ _ r Ht Hr) as (H0 & Hs & Hle). lia.
+    + rewrite (Hout Hg) in H. discriminate.
+  - intros x Hx.
+    destruct (search_lookup_spec ents n x Ht ltac:(lia)) as (Hin & _).
+    destruct (Hin ltac:(lia)) as (r & _ & Heq & _). rewrite Heq. discriminate.
+  - intros x Hx.
+    destruct (search_lookup_spec ents n x Ht ltac:(lia)) as (_ & Hout). apply Hout. assumption.
+Qed.
+
+(* ---------- db store: the recomputed chunk table ---------- *)
+Lemma resize_tiles_id : forall l a n, tiles a l n -> resize l n = l.
+Proof.
+  induction l as [|c t IH]; intros a n H; simpl; [reflexivity|].
+  simpl in H. destruct H as (Ho & Hs & Ht).
+  rewrite (IH _ _ Ht). f_equal.
+  destruct c as [co cz]. simpl in *. f_equal.
+  destruct t as [|c2 t'].
+  - simpl in Ht. lia.
+  - simpl in Ht. destruct Ht as (Ho2 & _). lia.
+Qed.
+
+Lemma filter_pos_tiles_id : forall l a n, tiles a l n -> filter (fun c => 0 <? c_size c) l = l.
+Proof.
+  induction l as [|c t IH]; intros a n H; simpl; [reflexivity|].
+  simpl in H. destruct H as (Ho & Hs & Ht).
+  replace (0 <? c_size c) with true by lia. f_equal. apply (IH _ _ Ht).
+Qed.
+
+(* the db store's table of a file the writer chunked: empty for an empty file, else a tiling of [0,n) *)
+Lemma db_chunks_tiles : forall n cs, 0 <= n -> 0 < cs -> tiles 0 (db_chunks n (emit_chunks n cs)) n.
+Proof.
+  intros n cs Hn Hcs. unfold emit_chunks.
+  destruct (0 <? n) eqn:E0.
+  - destruct (Z.to_nat n) as [|f] eqn:Ef; [lia|].
+    pose proof (emit_loop_tiles (S f) 0 n cs Hcs ltac:(lia) ltac:(lia)) as HT.
+    destruct (emit_loop (S f) 0 n cs) as [|[o s] rest] eqn:Ee.
+    + simpl in HT. lia.
+    + unfold db_chunks. rewrite E0.
+      replace (n =? 0) with false by lia.
+      simpl in HT. destruct HT as (Ho & Hs & Hrest).
+      fold (fixc n).
+      assert (Hfirst : mkChunk o (if (s =? 0) && negb false then n else s) = fixc n (o, s)).
+      { simpl. destruct (s =? 0); simpl; [|reflexivity]. f_equal. lia. }
+      rewrite Hfirst.
+      change (fixc n (o, s)) with (mkChunk o (if s =? 0 then n - o else s)) in *.
+      cbn [c_off c_size] in *.
+      rewrite (filter_pos_tiles_id _ _ _ Hrest).
+      assert (Hall : tiles 0 ([mkChunk o (if s =? 0 then n - o else s)] ++ map (fixc n) rest) n).
+      { simpl. repeat split; assumption. }
+      rewrite (resize_tiles_id _ _ _ Hall). exact Hall.
+  - assert (n = 0) by lia. subst n. cbn. reflexivity.
 Qed.
 
 (* chunk_lookup_correct *)
@@ -498,13 +570,21 @@ End ReadExact.
 (* ---------- layers and histories ---------- *)
 Definition Honest (L : layer) (c : cache) : Prop := forall k v, c k = Some v -> v = true_bytes L k.
 
-Definition FileOK (f : file) : Prop := TableOK (f_table f) (zlen (f_data f)).
+Definition FileOK (f : file) : Prop :=
+  if f_db f then tiles 0 (t_chunks (f_table f)) (zlen (f_data f)) else TableOK (f_table f) (zlen (f_data f)).
+
+Lemma lookup_of_spec : forall f, FileOK f -> LookupSpec (lookup_of f) (zlen (f_data f)).
+Proof.
+  intros f H. unfold FileOK, lookup_of in *. destruct (f_db f).
+  - unfold chunk_for_offset_db. apply search_lookup_lookupspec; [apply zlen_nonneg|assumption].
+  - apply chunk_for_offset_spec. assumption.
+Qed.
 Definition LayerOK (L : layer) : Prop := Forall FileOK L.
 
 Lemma file_at_ok : forall L i, LayerOK L -> FileOK (file_at L i).
 Proof.
   intros L i H. unfold file_at.
-  destruct (nth_in_or_default i L (mkFile [] (mkTable (mkChunk 0 0) []) [])) as [Hin|Hd].
+  destruct (nth_in_or_default i L (mkFile false [] (mkTable (mkChunk 0 0) []) [])) as [Hin|Hd].
   - unfold LayerOK in H. rewrite Forall_forall in H. apply H. assumption.
   - rewrite Hd. unfold FileOK, TableOK, zlen. simpl. split; [lia|]. left. split; [lia|reflexivity].
 Qed.
@@ -560,7 +640,7 @@ Lemma read_file_env_exact : forall L i env c off len,
 Proof.
   intros L i env c off len HL Hc He Ho Hl. unfold read_file_env.
   apply (read_at_exact i _ _ env (f_data (file_at L i)) (Honest L)); try assumption.
-  - apply chunk_for_offset_spec. apply (file_at_ok L i HL).
+  - apply lookup_of_spec. apply (file_at_ok L i HL).
   - intros c0 o s v H0 Hg. apply (H0 _ _ Hg).
   - intros c0 o s H0. apply (honest_cadd L c0 (i, o, s)). assumption.
   - intros c0 ch H0 _ _ _. eexists. split; [reflexivity|]. apply honest_add_honest. assumption.
@@ -642,13 +722,18 @@ Proof.
   apply read_file_exact; try assumption. apply exec_honest; assumption.
 Qed.
 
-(* the layer the writer produces: every file chunked with chunk size cs *)
-Lemma layer_of_writer_ok : forall cs (fs : list (bytes * list (Z * list key))), 0 < cs ->
-  LayerOK (map (fun f => mkFile (fst f) (mk_table (zlen (fst f)) cs) (snd f)) fs).
+(* the layer the writer produces, as either store indexes it: every file chunked with chunk size cs *)
+Definition writer_file (db : bool) (cs : Z) (f : bytes * list (Z * list key)) : file :=
+  mkFile db (fst f) (if db then mk_table_db (zlen (fst f)) cs else mk_table (zlen (fst f)) cs) (snd f).
+
+Lemma layer_of_writer_ok : forall db cs (fs : list (bytes * list (Z * list key))), 0 < cs ->
+  LayerOK (map (writer_file db cs) fs).
 Proof.
-  intros cs fs Hcs. unfold LayerOK. rewrite Forall_forall. intros f Hin.
+  intros db cs fs Hcs. unfold LayerOK. rewrite Forall_forall. intros f Hin.
   apply in_map_iff in Hin. destruct Hin as (x & Hx & _). subst f.
-  unfold FileOK. simpl. apply mk_table_ok; [apply zlen_nonneg|assumption].
+  unfold FileOK, writer_file. destruct db; simpl.
+  - apply db_chunks_tiles; [apply zlen_nonneg|assumption].
+  - apply mk_table_ok; [apply zlen_nonneg|assumption].
 Qed.
 
 (* short at EOF, never wrong: consequences of the exact result *)
